@@ -73,11 +73,11 @@ def main(argv=None):
     ctx = mp.get_context("spawn")
     work = [(prop, j, opts) for j in jobs]
     nproc = max(1, min(args.jobs, len(work)))
-    if nproc == 1:
+    if nproc == 1 and not opts.get("fresh_process"):
         for w in work:
             results.append(run_job(w))
     else:
-        with ctx.Pool(nproc, initializer=init_worker) as pool:
+        with ctx.Pool(nproc, initializer=init_worker, maxtasksperchild=1 if opts.get("fresh_process") else None) as pool:
             for r in pool.imap_unordered(run_job, work, chunksize=1):
                 results.append(r)
     results.sort(key=lambda r: r["id"])
